@@ -49,4 +49,19 @@ theorem map_ok_iff {α β : Type} {m : R α} {f : α → β} {b : β} : m.map f 
   | error e => simp [Except.map]
   | ok a => simp [Except.map]
 
+/-- `if c: raise e` in the middle of a `do` block (the join-point shape the `do` elaborator produces) -/
+theorem safe_guard {β : Type} {c : Prop} [Decidable c] {e : PyErr} {f : PUnit → R β} (he : Deliberate e) (hf : Safe (f ⟨⟩)) :
+    Safe (if c then (throw e : R PUnit) >>= f else f ⟨⟩) := by
+  split
+  · intro e' h; cases h; exact he
+  · exact hf
+
+theorem guard_ok_iff {β : Type} {c : Prop} [Decidable c] {e : PyErr} {f : PUnit → R β} {b : β} :
+    (if c then (throw e : R PUnit) >>= f else f ⟨⟩) = .ok b ↔ ¬ c ∧ f ⟨⟩ = .ok b := by
+  split
+  · rename_i h; constructor
+    · intro h'; cases h'
+    · intro ⟨h', _⟩; exact absurd h h'
+  · rename_i h; exact ⟨fun h' => ⟨h, h'⟩, fun h' => h'.2⟩
+
 end DpapiNg
